@@ -7,6 +7,7 @@
 
 #include <cstdio>
 #include <iterator>
+#include <memory>
 #include <vector>
 
 static unsigned long cases = 0, failures = 0;
@@ -197,6 +198,49 @@ run_assignable (const char *name)
   expect (same (u, us) && same (w, ws), name, "swap");
 }
 
+// --- A6: trivially copyable with an overloaded unary operator& (containers must use addressof)
+struct a6
+{
+  int v;
+  int pad;
+  a6 (int x) : v (x), pad (0) { }
+  a6 *operator& (void) { static a6 decoy (-1); return std::addressof (decoy); }
+  const a6 *operator& (void) const { static a6 decoy (-2); return std::addressof (decoy); }
+};
+
+#if __cplusplus >= 201703L
+// --- A7: over-aligned element that depends on its alignment: every special member checks the
+//     address it runs at (the stack copies the container makes of an argument count too)
+static unsigned long misaligned = 0;
+struct alignas (64) a7
+{
+  int v;
+  static void at (const void *p) { if (reinterpret_cast<std::size_t> (p) % 64 != 0) ++misaligned; }
+  a7 (int x) : v (x) { at (this); }
+  a7 (const a7& o) : v (o.v) { at (this); at (&o); }
+  a7& operator= (const a7& o) { at (this); at (&o); v = o.v; return *this; }
+  ~a7 (void) { at (this); }
+};
+
+// run the same history at several stack depths modulo 64
+template <unsigned N>
+static void
+run_a7_at (unsigned pad)
+{
+  volatile char *hole = static_cast<volatile char *> (__builtin_alloca (pad + 1));
+  hole[0] = 0;
+  run_assignable<a7, N> ("a7(alignas 64)");
+  typedef gch::small_vector<a7, N> V;
+  V v (4, a7 (1));
+  v.reserve (12);
+  v.emplace (v.begin () + 1, 7);
+  v.insert (v.begin () + 2, v[0]);
+  v.insert (v.begin () + 1, 2, v[3]);
+  v.emplace (v.begin (), v[2]);
+  expect (v.size () == 9 && v[0].v == 1 && v[2].v == 1, "a7(alignas 64)", "emplace / insert in place");
+}
+#endif
+
 // --- value-initialisation of trivially constructible types whose null value is not all-zero
 //     bytes (pointers to data members), alone and inside a trivial aggregate
 struct rec { int a; int b; };
@@ -241,6 +285,14 @@ main (void)
   run_a3<0> (); run_a3<2> (); run_a3<16> ();
   run_assignable<a4, 0> ("a4"); run_assignable<a4, 3> ("a4"); run_assignable<a4, 16> ("a4");
   run_assignable<a5, 0> ("a5"); run_assignable<a5, 3> ("a5"); run_assignable<a5, 16> ("a5");
+  run_assignable<a6, 0> ("a6(operator&)"); run_assignable<a6, 3> ("a6(operator&)"); run_assignable<a6, 16> ("a6(operator&)");
+#if __cplusplus >= 201703L
+  for (unsigned pad = 0; pad < 64; pad += 16)
+  {
+    run_a7_at<0> (pad); run_a7_at<3> (pad); run_a7_at<16> (pad);
+  }
+  expect (misaligned == 0, "a7(alignas 64)", "every element operation ran at an address aligned to alignof (T)");
+#endif
   std::printf ("ARCH cases=%lu failures=%lu\n", cases, failures);
   return failures ? 1 : 0;
 }
